@@ -257,6 +257,46 @@ func (s *Sim) ActMine(t *rapid.T) bool {
 	}
 	h := s.N.Tip + 1 + gap
 	bb := s.N.NewBlock(h)
+	// the chain may flip back to a block that was disconnected earlier: the
+	// very same block (hash, height, transactions) is connected again
+	var flip *Blk
+	if len(s.N.Orphaned) > 0 && rapid.IntRange(0, 3).Draw(t, "flipBack") == 0 {
+		var cands []*Blk
+		for _, ob := range s.N.Orphaned {
+			if ob.Height <= s.N.Tip {
+				continue
+			}
+			tb := s.N.NewBlock(ob.Height)
+			ok := true
+			for _, i := range ob.Txs {
+				// a coinbase of a disconnected block is valid again only in that same block
+				if s.U.Specs[i].Coinbase {
+					if len(tb.Txs) != 0 || s.N.ConfIn[i] != nil {
+						ok = false
+						break
+					}
+				} else if !tb.CanIncludeIgnoringDead(i) {
+					ok = false
+					break
+				}
+				tb.Include(i)
+			}
+			if ok {
+				cands = append(cands, ob)
+			}
+		}
+		if len(cands) > 0 {
+			flip = cands[rapid.IntRange(0, len(cands)-1).Draw(t, "flipTo")]
+		}
+	}
+	if flip != nil {
+		h = flip.Height
+		bb = s.N.NewBlock(h)
+		for _, i := range flip.Txs {
+			bb.Include(i)
+		}
+		s.Case.Class("flip-back-to-disconnected-block")
+	} else {
 	// optional coinbase first
 	for i := range s.U.Specs {
 		if s.U.Specs[i].Coinbase && bb.CanInclude(i) {
@@ -280,6 +320,7 @@ func (s *Sim) ActMine(t *rapid.T) bool {
 		if rapid.IntRange(0, 5).Draw(t, "take") < p {
 			bb.Include(i)
 		}
+	}
 	}
 	blockTime := time.Unix(1_650_000_000+int64(h)*600, 0)
 	if len(bb.Txs) == 0 {
@@ -312,7 +353,12 @@ func (s *Sim) ActMine(t *rapid.T) bool {
 			s.NImmatureCoinbase++
 		}
 	}
-	b := s.N.Connect(h, bb.Txs, blockTime)
+	var b *Blk
+	if flip != nil {
+		b = s.N.Reconnect(flip)
+	} else {
+		b = s.N.Connect(h, bb.Txs, blockTime)
+	}
 	s.Case.Logf("mine block h=%d %s txs=%v perTx=%v", h, b.Hash.String()[:8], bb.Txs, perTx)
 	if perTx {
 		for _, i := range b.Txs {
